@@ -6,6 +6,7 @@ import (
 	"github.com/jsightapi/jsight-schema-go-library/bytes"
 	"github.com/jsightapi/jsight-schema-go-library/errors"
 	"github.com/jsightapi/jsight-schema-go-library/internal/json"
+	"github.com/jsightapi/jsight-schema-go-library/internal/lexeme"
 	"github.com/jsightapi/jsight-schema-go-library/notations/jschema/internal/schema"
 	"github.com/jsightapi/jsight-schema-go-library/notations/jschema/internal/schema/constraint"
 )
@@ -56,4 +57,14 @@ func checkNotAnEnum(node schema.Node, value bytes.Bytes) {
 		(jsonType == json.TypeNull && node.Constraint(constraint.NullableConstraintType) != nil)) {
 		panic(errors.Format(errors.ErrInvalidValueType, jsonType.String(), schemaType.String()))
 	}
+}
+
+// isNullAllowed reports whether the literal lexeme may be the null admitted by
+// `nullable: true` on an array or object node. The value of a literal is known
+// only at its end.
+func isNullAllowed(node schema.Node, lex lexeme.LexEvent) bool {
+	if node.Constraint(constraint.NullableConstraintType) == nil {
+		return false
+	}
+	return lex.Type() == lexeme.LiteralBegin || lex.Value().String() == "null"
 }
